@@ -6,6 +6,7 @@
    tokenizer with mode m and field request ss. *)
 From Coq Require Import List NArith Bool String.
 From SudachiVerif Require Import Model.TokState Proofs.TokStateProofs.
+From SudachiVerif Require Model.Cli Model.CliLoop Proofs.CliLoopProofs.
 Import ListNotations.
 
 (* fact obligations: the regenerated clear lists / guards / step order are the ones the theorems are proved for, and
@@ -89,3 +90,40 @@ Theorem C10_failed_analysis_usable_concrete :
     Tokenizer.tokenize_model cfg (tk_at base gi (smode (mode (tk y))) (subset (tk y))) t.
 Proof. exact (failed_analysis_usable_concrete C10_buffer_facts_agree C10_facts). Qed.
 Print Assumptions C10_failed_analysis_usable_concrete.
+
+(* ---- the command-line tool: one tokenizer and ONE result list over all lines of the input (sudachi-cli/src/main.rs, analysis.rs) ---- *)
+
+(* extracted from analysis.rs on every run: every `self.output.write(writer, &self.morphemes)` of AnalyzeNonSplitted::analyze is
+   executed only after reset().push_str(line), do_tokenize() and collect_results(..) of the CURRENT line (no branch skips the
+   analysis and still writes), the function writes nothing else, and AnalyzeSplitted::analyze only iterates it over the sentences *)
+Fact C10_cli_loop_facts : CliLoop.loop_facts_ok = true.
+Proof. vm_compute. reflexivity. Qed.
+
+(* the loop as a fold over the lines with the reused list as state: for every analysis function, output format and sentence
+   splitter, with or without sentence splitting, every file and whatever the list held initially, the bytes written are the
+   concatenation of what each line prints on its own *)
+Theorem C10_cli_output_is_per_line :
+  forall (res : Type) (analyse : CliLoop.ltext -> res) (render : res -> list N) (sentences : CliLoop.ltext -> list CliLoop.ltext)
+         (skipped : CliLoop.ltext -> bool) (split : bool) (held : res) (file : list N),
+    CliLoop.run_file res analyse render sentences skipped CliLoop.loop_facts_ok split held file
+    = List.concat (map (CliLoop.output_of_line res analyse render sentences split) (Cli.cli_texts file)).
+Proof. exact (CliLoopProofs.cli_output_is_per_line C10_cli_loop_facts). Qed.
+Print Assumptions C10_cli_output_is_per_line.
+
+(* ... which is what a fresh process (list created empty) prints for that line alone *)
+Theorem C10_cli_line_as_fresh_process :
+  forall (res : Type) (analyse : CliLoop.ltext -> res) (render : res -> list N) (sentences : CliLoop.ltext -> list CliLoop.ltext)
+         (skipped : CliLoop.ltext -> bool) (split : bool) (held empty : res) (file : list N),
+    CliLoop.run_file res analyse render sentences skipped CliLoop.loop_facts_ok split held file
+    = List.concat (map (fun l => snd (CliLoop.run_lines res analyse render sentences skipped CliLoop.loop_facts_ok split empty [l]))
+                       (Cli.cli_texts file)).
+Proof. exact (CliLoopProofs.cli_line_as_fresh_process C10_cli_loop_facts). Qed.
+Print Assumptions C10_cli_line_as_fresh_process.
+
+(* a blank line prints the rendering of the analysis of the empty text, never what the list held from the line before *)
+Theorem C10_cli_blank_line :
+  forall (res : Type) (analyse : CliLoop.ltext -> res) (render : res -> list N) (sentences : CliLoop.ltext -> list CliLoop.ltext)
+         (skipped : CliLoop.ltext -> bool) (held : res),
+    snd (CliLoop.analyze_line res analyse render sentences skipped CliLoop.loop_facts_ok false held []) = render (analyse []).
+Proof. exact (CliLoopProofs.cli_blank_line C10_cli_loop_facts). Qed.
+Print Assumptions C10_cli_blank_line.
